@@ -137,6 +137,8 @@ def run(ctx):
     ctx.ob("C03.1", "%s|framing-table" % f.id,
            "for every combination of upgrade / Transfer-Encoding / Content-Length class / Expect the body reader is: raw stream for upgrade; chunk decoder when Transfer-Encoding is present; empty for no or zero length; a pre-read buffer for 1..=1024 without Expect; a length-limited reader otherwise",
            not bad, f.loc(start), None if not bad else "mismatches ((upgrade,TE,CL,expect), got, want): %s" % bad[:4])
+    # Transfer-Encoding takes precedence: the Content-Length lookup happens only when no Transfer-Encoding header exists
+    te_disables_cl(ctx, facts, f)
     # body_length is the Content-Length consulted above; EqualReader gets the same value
     eqn = [(bb, t) for bb, t in f.calls() if call_matches(t, r"EqualReader::<R>::new$")]
     for bb, t in eqn:
@@ -281,3 +283,103 @@ def finish_c03(ctx, facts, f, dom):
                 okz = bool(clears) and not any(x in r_ for x in fr.returns()) and not (set(clears) & fr.reach([bs[2]], unwind=False))
     ctx.ob("C03.4", "%s|drops-inner-at-eof" % fr.id, "the inner reader is released exactly when a read returned 0", okz, "%s:%d" % (fr.file, fr.line))
     return {}
+
+
+def te_disables_cl(ctx, facts, nr):
+    lookups = {}
+    for cl in facts.find_fns(r"^request::new_request::\{closure"):
+        for bb, t in cl.calls():
+            if call_matches(t, r"common::HeaderField::equiv$"):
+                lit = [c for c in arg_consts(cl, t) if isinstance(c, str)]
+                if lit:
+                    lookups[lit[0]] = cl.id
+    finds = [(bb, t) for bb, t in nr.calls() if call_matches(t, r"as std::iter::Iterator>::find::<|Iterator>?::find$")]
+    cl_find = [bb for bb, t in finds if nr.origin(t["args"][1])[0] == "agg" and lookups.get("Content-Length") == nr.origin(t["args"][1])[1]]
+    ok = False
+    for bb, t in nr.calls():
+        if call_matches(t, r"Option::<T>::is_some$|Option::<T>::is_none$") and t.get("target") is not None:
+            o = nr.origin(t["args"][0])
+            clo = [x for x in origin_walk(o) if x[0] == "agg" and x[1] == lookups.get("Transfer-Encoding")]
+            if origin_has_call(o, r"Iterator>?::find") and clo:
+                bs = bool_switch(nr, t["target"])
+                if bs and cl_find and bs[1] != bs[2]:
+                    absent_edge = bs[2] if t["name"] == "is_some" else bs[1]
+                    if all(nr.dominates(absent_edge, c, unwind=False) for c in cl_find):
+                        ok = True
+    ctx.ob("C03.1", "%s|TE-takes-precedence" % nr.id, "a Transfer-Encoding header takes precedence: Content-Length is looked at only when there is none", ok and bool(cl_find), "%s:%d" % (nr.file, nr.line))
+
+
+def bounded_read_sites(ctx, rule, g, bound_desc, is_bound):
+    """every buffer handed to an inner Read::read of g is either the caller's whole buffer under `len(buf) < bound`
+    or its prefix `[..bound]`"""
+    reads = [(bb, t) for bb, t in g.calls() if t.get("callee") == "std::io::Read::read"]
+    n = 0
+    for k, (rb, rt) in enumerate(reads):
+        n += 1
+        bl = op_local(rt["args"][1])
+        src = bl
+        d = g.single_def(bl)
+        while d and d[0] == "assign" and d[3]["rv"] in ("ref", "use"):
+            p = d[3]["pl"] if d[3]["rv"] == "ref" else op_place(d[3]["op"])
+            if p is None:
+                break
+            src = p["l"]
+            d = g.single_def(src)
+        defs = [x for x in g.defs().get(src, []) if x[0] in ("assign", "call") and x[1] in g.dominators(False)[rb] or x[0] == "arg"]
+        detail = []
+        ok = True
+        def whole_buffer_guarded(at_bb):
+            for b in g.dominators(False)[at_bb]:
+                bs = bool_switch(g, b)
+                if bs:
+                    c = g.origin(bs[0])
+                    if c[0] == "binop" and c[1] in ("Lt", "Le") and origin_has_call(c[2], r"::len$") and is_bound(c[3]) and g.dominates(bs[1], at_bb, unwind=False) and bs[1] != bs[2]:
+                        return True
+            return False
+        o = g.origin(rt["args"][1])
+        if origin_has_call(o, r"index_mut$|index$"):
+            idx = [y for y in origin_calls(o) if re.search(r"index(_mut)?$", y[1])][0]
+            rng = idx[2][1]
+            fine = rng[0] == "agg" and str(rng[1]).endswith("RangeTo") and is_bound(rng[2][0])
+            detail.append("[..%s]%s" % (bound_desc, "" if fine else " WRONG-BOUND"))
+            ok = ok and fine
+        elif any(y[0] == "arg" for y in origin_walk(o)):
+            fine = whole_buffer_guarded(rb)
+            detail.append("whole buffer under len < %s%s" % (bound_desc, "" if fine else " UNGUARDED"))
+            ok = ok and fine
+        else:
+            detail.append("unrecognised: " + origin_str(o))
+            ok = False
+        ctx.ob(rule, "[dep]%s|slice-bounded|%d" % (g.id, k), "the chunk decoder never asks its source for more than the rest of the current chunk", ok, g.loc(rb), ", ".join(detail))
+    return n
+
+
+def run_thorough(ctx):
+    """C03.5: the same bounded-slice obligation inside chunked_transfer::Decoder::read (generic MIR of the dependency)"""
+    facts = ctx.facts
+    g = facts.fn_opt("<chunked_transfer::Decoder<R> as std::io::Read>::read")
+    if g is None:
+        raise CheckerError("C03.5: generic MIR of chunked_transfer::Decoder::read not available")
+    ctx.touch(g)
+    # the bound: the local holding the remaining size of the current chunk
+    cands = set()
+    for bb in sorted(g.live_blocks()):
+        bs = bool_switch(g, bb)
+        if bs:
+            c = g.origin(bs[0])
+            if c[0] == "binop" and c[1] in ("Lt", "Ge") and origin_has_call(c[2], r"::len$") and c[3][0] == "local":
+                cands.add(c[3][1])
+    ctx.require(len(cands) == 1, "C03.5: remaining-chunk-size local of Decoder::read not identified (%s)" % cands)
+    L = next(iter(cands))
+    n = bounded_read_sites(ctx, "C03.5", g, "remaining_chunk_size", lambda o: o == ("local", L))
+    ctx.floor("C03.5 inner reads of Decoder::read", n, 2)
+    # everything else the decoder reads from the source is byte-wise (bytes().next())
+    others = 0
+    for k, h in sorted(facts.fns.items()):
+        if not h.rec.get("local") and re.search(r"chunked_transfer::(decoder::)?Decoder::<R>::read_", k):
+            for bb, t in h.calls():
+                if t.get("callee") in ("std::io::Read::read", "std::io::Read::read_exact", "std::io::Read::read_to_end"):
+                    others += 1
+                    ctx.ob("C03.5", "[dep]%s|bulk-read" % k, "chunk framing (size lines, CRLF) is read byte by byte, never in bulk", False, h.loc(bb))
+    ctx.ob("C03.5", "[dep]decoder-framing-bytewise", "chunk framing (size lines, CRLF) is read byte by byte, never in bulk", others == 0, g.file)
+    return {"decoder_reads_checked": n}
